@@ -47,10 +47,12 @@ def instances(tier, seed):
     for t, maxsize, vals in plan:
         for ks in key_sets(t, maxsize, vals):
             for ws in weight_patterns(len(ks)):
-                for form in ("int", "fraction", "float", "tiny", "lopsided"):
+                for form in ("int", "fraction", "float", "tiny", "lopsided", "tiny-uneven"):
                     if form != "int" and len(ks) == 1 and ws != (1,):
                         continue
                     if form in ("tiny", "lopsided") and (t > 1 or len(ks) != 2 or ws != (1, 1)):
+                        continue
+                    if form == "tiny-uneven" and (t > 1 or len(ks) != 2 or ws != (2, 1)):
                         continue
                     yield {"keys": [list(k) for k in ks], "weights": list(ws), "form": form, "t": t, "maxN": maxN}
                     if form == "int" and len(ks) >= 2 and len(set(ws)) > 1:
@@ -62,6 +64,9 @@ def instances(tier, seed):
 def weights_of(inst):
     if inst["form"] == "tiny":
         return [w * 1e-13 for w in inst["weights"]]
+    if inst["form"] == "tiny-uneven":
+        # unnormalised weights below the float epsilon (1e-16 : 5e-16 : ...): still proportional weights
+        return [(1 + 4 * i) * 1e-16 for i in range(len(inst["weights"]))]
     if inst["form"] == "lopsided":
         return [1 - 1e-13] + [1e-13 / max(1, len(inst["weights"]) - 1)] * (len(inst["weights"]) - 1)
     ws = inst["weights"]
